@@ -11,6 +11,7 @@ import (
 	"fmt"
 	"math/rand"
 	"os"
+	"strings"
 	"sync"
 	"sync/atomic"
 
@@ -133,10 +134,34 @@ func cmdRace(args []string) {
 			})
 		}
 	}
+	// refused inputs too: every way the decoder has of saying no
+	for i, b := range [][]byte{
+		{0, 0, 0, 10, 0, 1, 0x81, 2, 0, 0, 0, 0, 0, 1},                         // W on an even function
+		{0, 0, 0, 13, 0, 1, 1, 1, 0, 0, 0, 0, 0, 1, 0x41, 1, 0xe9},             // text that is not ASCII
+		{0, 0, 0, 16, 0, 1, 1, 1, 0, 0, 0, 0, 0, 1, 0x91, 4, 0x7f, 0xc0, 0, 0}, // NaN
+		{0, 0, 0, 16, 0, 1, 1, 1, 0, 0, 0, 0, 0, 1, 0x91, 4, 0xff, 0x80, 0, 0}, // -Inf
+		{0, 0, 0, 12, 0, 1, 1, 1, 0, 0, 0, 0, 0, 1, 1, 3},                      // a list cut short
+		{0, 0, 0, 13, 0, 1, 1, 1, 0, 0, 0, 0, 0, 1, 0xa9, 3, 1},                // a value cut short
+		{0, 0, 0, 14, 0, 1, 1, 1, 0, 0, 0, 0, 0, 1, 0xa9, 1, 1, 9},             // trailing byte
+		{0, 0, 0, 12, 0, 1, 1, 1, 0, 0, 0, 0, 0, 1, 0xfd, 0},                   // unknown format
+		{0, 0, 0, 9, 0, 1, 1, 1, 0, 0, 0, 0, 0},                                // short header
+	} {
+		b := b
+		add(fmt.Sprintf("hsmsbad%d", i), func() string {
+			x, ok := hsms.Parse(b)
+			return fmt.Sprint(ok, x == nil)
+		})
+	}
 	if *cold {
 		// first uses race with each other (lazy initialisation, caches filled on demand): every
 		// goroutine starts at the same moment on the same operations, results are compared afterwards
 		got := make([][]string, *workers)
+		var parserOps []int
+		for i, op := range ops {
+			if strings.HasPrefix(op.name, "sml") || strings.HasPrefix(op.name, "hsms") {
+				parserOps = append(parserOps, i)
+			}
+		}
 		start := make(chan struct{})
 		var wg sync.WaitGroup
 		for w := 0; w < *workers; w++ {
@@ -146,9 +171,16 @@ func cmdRace(args []string) {
 			go func() {
 				defer wg.Done()
 				<-start
+				// the parsers first, every goroutine at the same moment, then everything else
+				for k := 0; k < len(parserOps); k++ {
+					i := parserOps[(k+w)%len(parserOps)]
+					got[w][i] = safeCall(ops[i].run)
+				}
 				for k := 0; k < len(ops); k++ {
 					i := (k + w*7) % len(ops)
-					got[w][i] = safeCall(ops[i].run)
+					if got[w][i] == "" {
+						got[w][i] = safeCall(ops[i].run)
+					}
 				}
 			}()
 		}
